@@ -161,7 +161,9 @@ def run(module, cfg, *, name=None, workers=None, simulate=None, depth=None, seed
     if r.violated:
         r.trace = parse_trace(out)
     for mc in _RE_COV.finditer(out):
-        r.coverage[mc.group(1)] = (int(mc.group(4)), int(mc.group(5)))
+        # coverage may be reported more than once (periodically and at the end): keep the largest counts
+        prev = r.coverage.get(mc.group(1), (0, 0))
+        r.coverage[mc.group(1)] = (max(prev[0], int(mc.group(4))), max(prev[1], int(mc.group(5))))
     finished = ("Model checking completed" in out) or ("Finished in" in out) or (simulate is not None and rc in (0, 12))
     r.ok = (rc == 0) and r.violated is None and not r.postcondition_failed
     machinery_bad = (
